@@ -462,7 +462,7 @@ func globGen(w *bufio.Writer, args map[string]string) {
 	subsets(w, kindPool, patterns)
 	n := 1500
 	if tier == "thorough" {
-		n = 10000
+		n = 120000
 	}
 	rng := rand.New(rand.NewSource(seed))
 	for i := 0; i < n; i++ {
